@@ -173,8 +173,34 @@ fn frames() -> Vec<Frame> {
     out
 }
 
+/// Replies received on the same connection before the judged one.
+const CONTEXTS: &[&[&str]] = &[
+    &[],
+    &["{\"parameters\":{\"a\":1},\"continues\":true}"],
+    &["{\"parameters\":{\"a\":1},\"continues\":true}", "{\"continues\":true,\"parameters\":{\"id\":2,\"name\":\"m\"}}"],
+    &["{\"error\":\"a.NotFound\"}"],
+    &["{\"parameters\":{\"a\":1}}"],
+    &["{\"parameters\":{\"a\":1},\"continues\":false}"],
+];
+/// Total frame sizes the judged frame is padded to with insignificant white space (0 = as is).
+const PADS: &[usize] = &[0, 257, 1024, 4095, 4096, 4097, 16_384, 70_000];
+
+fn pad_frame(text: &str, to: usize) -> String {
+    if to <= text.len() {
+        return text.to_string();
+    }
+    // white space between the opening brace and the first member is insignificant
+    let mut s = String::with_capacity(to);
+    s.push('{');
+    for k in 0..to - text.len() {
+        s.push(if k % 61 == 60 { '\n' } else { ' ' });
+    }
+    s.push_str(&text[1..]);
+    s
+}
+
 macro_rules! combo {
-    ($rep:expr, $cfg:expr, $frames:expr, $P:ty, $E:ty, $pn:expr, $en:expr, $proxy:ident, $unit:expr) => {{
+    ($rep:expr, $cfg:expr, $frames:expr, $variants:expr, $P:ty, $E:ty, $pn:expr, $en:expr, $proxy:ident, $unit:expr) => {{
         for (fi, fr) in $frames.iter().enumerate() {
             if !$cfg.mine(fi as u64) {
                 continue;
@@ -198,22 +224,44 @@ macro_rules! combo {
                     }
                 }
             };
+            for &(ctx, pad) in $variants.iter() {
             for path in ["receive_reply", "call_method", "proxy"] {
                 let wire = new_wire(0);
+                let padded = pad_frame(&fr.text, pad);
                 {
                     let mut w = wire.borrow_mut();
-                    let mut b = bytes.to_vec();
+                    let mut b = Vec::new();
+                    for pre in CONTEXTS[ctx] {
+                        b.extend_from_slice(pre.as_bytes());
+                        b.push(0);
+                    }
+                    b.extend_from_slice(padded.as_bytes());
                     b.push(0);
                     w.push(Rx::Bytes(b));
                 }
                 let mut conn = Connection::new(VSocket(wire.clone()));
+                // the history of the connection before the judged reply arrives: earlier replies of a
+                // stream, an earlier error, an earlier plain reply (received with lenient types)
+                let mut history_ok = true;
+                for _ in CONTEXTS[ctx] {
+                    match vnet::block_on(conn.receive_reply::<Value, EA>(), 3) {
+                        Some(Ok(_)) => {}
+                        _ => history_ok = false,
+                    }
+                }
+                if !history_ok {
+                    $rep.violation("C04/context-reply-not-received", format!("context {ctx} before {}", fr.text), json!({"monitor": "c04", "frame": fr.text, "ctx": ctx}));
+                    continue;
+                }
                 let call = Call::new(MA::U);
                 let seen = match path {
                     "receive_reply" => seen_of(vnet::block_on(conn.receive_reply::<$P, $E>(), 3)),
                     "call_method" => seen_of(vnet::block_on(conn.call_method::<_, $P, $E>(&call), 3)),
                     _ => seen_of_proxy(vnet::block_on(conn.$proxy(), 3)),
                 };
-                $rep.eval(fnv(fr.text.as_bytes()) ^ fnv($pn.as_bytes()).rotate_left(7) ^ fnv($en.as_bytes()).rotate_left(13) ^ fnv(path.as_bytes()).rotate_left(23));
+                if ctx > 0 { $rep.count("cases_with_connection_history"); }
+                if pad > 0 { $rep.count("cases_with_padded_frame"); }
+                $rep.eval(fnv(fr.text.as_bytes()) ^ fnv($pn.as_bytes()).rotate_left(7) ^ fnv($en.as_bytes()).rotate_left(13) ^ fnv(path.as_bytes()).rotate_left(23) ^ ((ctx as u64) << 40) ^ ((pad as u64) << 44));
                 $rep.count(&format!("family.{}", fr.family));
                 let ok = match (&want, &seen) {
                     (Want::Grey, _) => true,
@@ -237,13 +285,14 @@ macro_rules! combo {
                     let wclass = match &want { Want::Success(_) => "success", Want::FailedNoError => "failure", Want::ServiceError(_) => "service-error", Want::MethodError(_) => "method-error", Want::NotSuccess => "not-success", Want::Grey => "grey" };
                     $rep.violation(
                         &format!("C04/{}-frame-reported-as-{}-instead-of-{}", fr.family, class(&seen), wclass),
-                        format!("{path}::<{}, {}> on {}: wanted {:?}, saw {:?}", $pn, $en, fr.text, want, seen),
-                        json!({"monitor": "c04", "frame": fr.text, "params": $pn, "error": $en, "path": path}),
+                        format!("{path}::<{}, {}> on {} (after {:?}, frame padded with white space to {} bytes): wanted {:?}, saw {:?}", $pn, $en, fr.text, CONTEXTS[ctx], padded.len(), want, seen),
+                        json!({"monitor": "c04", "frame": fr.text, "params": $pn, "error": $en, "path": path, "ctx": ctx, "pad": pad}),
                     );
                 }
                 if fi % 97 == 0 && path == "receive_reply" {
-                    $rep.sample(10, || json!({"frame": fr.text, "params_type": $pn, "error_type": $en, "wanted": format!("{want:?}"), "saw": format!("{seen:?}")}));
+                    $rep.sample(10, || json!({"frame": fr.text, "after": CONTEXTS[ctx], "padded_to": padded.len(), "params_type": $pn, "error_type": $en, "wanted": format!("{want:?}"), "saw": format!("{seen:?}")}));
                 }
+            }
             }
         }
     }};
@@ -260,13 +309,27 @@ pub fn run(cfg: &Cfg) -> Report {
     }
     rep.add("frames_in_matrix", frames.len() as u64);
     rep.exhaustive = true;
-    combo!(rep, cfg, frames, (), EA, "()", "EA", unit_ea, true);
-    combo!(rep, cfg, frames, AllOpt, EA, "AllOpt", "EA", allopt_ea, false);
-    combo!(rep, cfg, frames, Value, EA, "Value", "EA", value_ea, false);
-    combo!(rep, cfg, frames, PStrict, EA, "PStrict", "EA", strict_ea, false);
-    combo!(rep, cfg, frames, (), EEmpty, "()", "EEmpty", unit_empty, true);
-    combo!(rep, cfg, frames, (), varlink_service::Error, "()", "varlink_service::Error", unit_svc, true);
-    combo!(rep, cfg, frames, AllOpt, EEmpty, "AllOpt", "EEmpty", allopt_empty, false);
+    // (connection history, frame size): the whole product
+    let mut variants: Vec<(usize, usize)> = Vec::new();
+    if let Some(r) = &cfg.replay {
+        variants.push((r["ctx"].as_u64().unwrap_or(0) as usize, r["pad"].as_u64().unwrap_or(0) as usize));
+    } else if cfg.layer == "miri" {
+        variants = vec![(0, 0), (1, 0), (0, 300)];
+    } else {
+        for ctx in 0..CONTEXTS.len() {
+            for &pad in PADS {
+                variants.push((ctx, pad));
+            }
+        }
+    }
+    rep.add("history_x_size_variants", variants.len() as u64);
+    combo!(rep, cfg, frames, variants, (), EA, "()", "EA", unit_ea, true);
+    combo!(rep, cfg, frames, variants, AllOpt, EA, "AllOpt", "EA", allopt_ea, false);
+    combo!(rep, cfg, frames, variants, Value, EA, "Value", "EA", value_ea, false);
+    combo!(rep, cfg, frames, variants, PStrict, EA, "PStrict", "EA", strict_ea, false);
+    combo!(rep, cfg, frames, variants, (), EEmpty, "()", "EEmpty", unit_empty, true);
+    combo!(rep, cfg, frames, variants, (), varlink_service::Error, "()", "varlink_service::Error", unit_svc, true);
+    combo!(rep, cfg, frames, variants, AllOpt, EEmpty, "AllOpt", "EEmpty", allopt_empty, false);
     // borrowed parameter type: receive_reply / call_method only (exercised through a helper fn so
     // that the lifetime is tied to the connection borrow)
     borrowed(&mut rep, cfg, &frames);
